@@ -53,6 +53,13 @@ class Check:
     def start(self, world, run):
         world.open()
         world.refresh_view()
+        if world.view:
+            self.fresh_store_not_empty(world)
+
+    def fresh_store_not_empty(self, world):
+        """A store created on a fresh file (or a fresh MemoryStorage) already lists buckets: state leaked from
+        another store object.  C05 reports it; for every other property the run is outside its quantifier."""
+        raise Abandon("a freshly created store already lists buckets %s" % sorted(world.view), "C05")
 
     def before(self, world, step, i):
         pass
@@ -90,9 +97,9 @@ class Check:
         t0_us = seams.CLOCK.us
         try:
             world = self.make_world(run, rundir)
-            self.start(world, run)
             i = -1
             try:
+                self.start(world, run)
                 for i, step in enumerate(run["steps"]):
                     self.before(world, step, i)
                     out = world.exec_op(step)
@@ -110,7 +117,7 @@ class Check:
             except Violation as v:
                 if isinstance(v.detail, dict) and v.detail.get("step_index") is not None:
                     i = v.detail["step_index"]
-                st = run["steps"][i] if 0 <= i < len(run["steps"]) else {"op": "finish"}
+                st = run["steps"][i] if 0 <= i < len(run["steps"]) else {"op": "start" if i < 0 else "finish"}
                 res.update(
                     status="violation",
                     tag=v.tag,
@@ -123,14 +130,20 @@ class Check:
             except Abandon as a:
                 res.update(status="abandoned", message=a.reason, tag=a.other_property, step_index=i)
                 log.append([i, "ABANDON", a.reason])
-            res["nontrivial"] = bool(self.nontrivial(world, run, res)) if world else False
-            res["signature"] = self.signature(world, run, res)
+            if i < 0:
+                # failed or abandoned before the first step: per-run oracle state may not exist yet
+                res["nontrivial"] = False
+                res["signature"] = digest([run.get("backend"), "start", res["status"]])
+            else:
+                res["nontrivial"] = bool(self.nontrivial(world, run, res)) if world else False
+                res["signature"] = self.signature(world, run, res)
             res["probes"] = dict(world.probes) if world else {}
             res["sim_us"] = seams.CLOCK.us - t0_us
             res["clock_reads"] = seams.CLOCK.reads
             res["stmts"] = seams.STMT.count
-            self.extra_result(world, run, res)
-            log.append(["extra", self.extra_log(world, run, res)])
+            if i >= 0:
+                self.extra_result(world, run, res)
+                log.append(["extra", self.extra_log(world, run, res)])
         finally:
             if world is not None:
                 try:
